@@ -93,7 +93,8 @@ func (q *ShardQueue) Add(gts ...WriterGetter) {
 	if atomic.LoadInt32(&q.state) != active {
 		return
 	}
-	shard := atomic.AddInt32(&q.idx, 1) % q.size
+	// the counter wraps after 2^31 Adds: take the remainder of the unsigned value, a negative shard would panic
+	shard := int32(uint32(atomic.AddInt32(&q.idx, 1)) % uint32(q.size))
 	q.lock(shard)
 	trigger := len(q.getters[shard]) == 0
 	q.getters[shard] = append(q.getters[shard], gts...)
